@@ -3,6 +3,7 @@ package main
 import (
 	"errors"
 	"fmt"
+	"strconv"
 	"strings"
 	"sync"
 	"time"
@@ -1010,6 +1011,43 @@ func c14ExpiryUnderLoad(c *Ctx) {
 	}
 }
 
+// the cache layer keeps long keys apart: 600000 different keys that share their first 120 bytes
+// are stored with alternating decisions and read back -- every key gets its own decision (a store
+// that shortens keys to a prefix plus a small digest mixes some of them up).
+func c14LongKeys(c *Ctx) {
+	prefix := strings.Repeat("tenant-0123456789/", 8)
+	mk := []func() cache.Cache{
+		func() cache.Cache { x, _ := cache.NewDefaultCache(); return x },
+		func() cache.Cache { x, _ := cache.NewSyncCache(); return x },
+	}
+	const n = 600000
+	for ci, f := range mk {
+		ch := f()
+		val := func(i int) bool { return (i*2654435761>>7)&1 == 1 }
+		// (scattered suffixes: consecutive decimal numbers never collide under the usual digests)
+		key := func(i int) string { return prefix + strconv.FormatUint(uint64(i)*0x9E3779B97F4A7C15, 36) + "$$read$$" }
+		for i := 0; i < n; i++ {
+			_ = ch.Set(key(i), val(i))
+		}
+		bad := 0
+		first := ""
+		for i := 0; i < n; i++ {
+			k := key(i)
+			got, err := ch.Get(k)
+			if err != nil || got != val(i) {
+				bad++
+				if first == "" {
+					first = k
+				}
+			}
+		}
+		if bad != 0 {
+			c.Direct(fmt.Sprintf("c14.long-keys.%d", ci), fmt.Sprintf("%d of %d long keys (common prefix of %d bytes) read back another key's decision or nothing", bad, n, len(prefix)), first)
+		}
+		c.Count("long-keys")
+	}
+}
+
 // c14LifetimeUnderPolling: a lifetime runs from the moment a decision was STORED.  A cached
 // (now stale) decision that is asked for again and again at intervals much shorter than the
 // lifetime must still give way to the fresh decision once the lifetime is over.  Real time,
@@ -1297,6 +1335,7 @@ func init() {
 		c14FailingWatcher(c)
 		c14KeyInjective(c)
 		c14ExpiryUnderLoad(c)
+		c14LongKeys(c)
 		var cases []*c14Case
 		cases = append(cases, c14Witnesses()...)
 		cases = append(cases, c14Exhaustive(exLen)...)
